@@ -8,6 +8,7 @@
 //   reload <stack> <hex>               -> "ok <unread> | <Dat tokens of the loaded field>" | "error <class>"
 //   redump <stack> <hex>               -> "ok <unread> | <hex of dump of the loaded field>" | "error <class>"
 //   fload  <stack> cut|short|half|throw <arg> <hex>   (fault-injecting streambuf)
+//   lookups <stack> <N> s1..sN | <dat>  -> "ok <coordinates compared> <coordinates at which the reloaded field differs>"
 //   prefixes <stack> <hex>             -> one char per k in 0..len: E(xception) / F(ield returned)
 //   xprefixes <stack> <hex>            -> the same with is.exceptions(failbit|badbit) enabled on the caller's stream
 //   alts   <stack> <hex> off:word ...  -> one char per altered 4-byte word
